@@ -31,7 +31,7 @@ man = {
         'guard': 'URCU_VERIF',
         'enable': '-DURCU_VERIF -DURCU_VERIF_<CONSTANT>=<value> on the clang-14 command line of each harness TU (harness TUs #include the real sources from /repo); nothing is built inside /repo',
         'baseline_off_cmd': 'make -C /repo -k check',
-        'source_commits': ['1d3cb4099ead4e8400ee357c999ecddbeb1ff638'],
+        'source_commits': ['1d3cb4099ead4e8400ee357c999ecddbeb1ff638', '764eee62c885285664eb4517bb1399088557a770'],
         'add_only': True,
     },
     'engines': [{'name': 'irseq+cbmc', 'path': 'check.py', 'serves_properties': [c['property_id'] for c in checks],
